@@ -42,6 +42,58 @@ def sh(cmd, cwd=None, env=None, timeout=None):
     return p.returncode, p.stdout
 
 
+def _cpu_ticks(pid):
+    """utime + stime of a process (all threads), in clock ticks; None when it is gone"""
+    try:
+        f = open(f"/proc/{pid}/stat").read()
+        rest = f[f.rindex(")") + 2:].split()
+        return int(rest[11]) + int(rest[12])
+    except Exception:
+        return None
+
+
+def sh_java(cmd, cwd=None, env=None, timeout=None, stall=150, attempts=3):
+    """Run a JVM tool (TLC).  TLC 1.8 can, very rarely and only under heavy machine load, dead-lock in its disk-backed state
+    queue (all workers blocked on the queue monitor, its holder waiting for the pool writer; seen once in several
+    thousand runs, thread dump in DESIGN.md).  Such a run burns no CPU at all, so it is recognised by `stall` seconds
+    with less than 0.5 % of one core -- something a live TLC never shows, however loaded the machine -- killed and started again.  A run that
+    is merely slow is never touched; the overall timeout applies across attempts."""
+    import tempfile
+    e = dict(os.environ)
+    if env:
+        e.update(env)
+    t_end = None if timeout is None else time.time() + timeout
+    for attempt in range(attempts):
+        with tempfile.TemporaryFile(mode="w+", errors="replace") as outf:
+            p = subprocess.Popen(cmd, cwd=cwd, env=e, stdout=outf, stderr=subprocess.STDOUT, text=True)
+            last, last_t, stalled = _cpu_ticks(p.pid), time.time(), False
+            while True:
+                try:
+                    p.wait(timeout=5)
+                    break
+                except subprocess.TimeoutExpired:
+                    pass
+                now = time.time()
+                if t_end is not None and now > t_end:
+                    p.kill()
+                    p.wait()
+                    raise subprocess.TimeoutExpired(cmd, timeout)
+                if now - last_t >= stall:
+                    c = _cpu_ticks(p.pid)
+                    if c is not None and last is not None and c - last < stall // 2:      # < 0.5 % of one core over `stall` seconds
+                        stalled = True
+                        p.kill()
+                        p.wait()
+                        break
+                    last, last_t = c, now
+            outf.seek(0)
+            out = outf.read()
+        if not stalled:
+            return p.returncode, out
+        sys.stderr.write(f"note: JVM made no progress for {stall} s (TLC state-queue dead-lock), restarted: {' '.join(cmd[-3:])}\n")
+    raise subprocess.TimeoutExpired(cmd, timeout or 0)
+
+
 # --------------------------------------------------------------------------- build
 _built = {}
 
@@ -107,7 +159,7 @@ def tlc_trace(module, cfg, trace_path, workdir, timeout=1800, xmx="4g"):
     md = os.path.join(workdir, "md")
     env = {"TRACE": trace_path, "JAVA_TOOL_OPTIONS": f"{TLC_JAVA_OPTS} -Xmx{xmx}"}
     try:
-        rc, out = sh(_tlc_cmd(module, cfg, 1, md), cwd=SPEC, env=env, timeout=timeout)
+        rc, out = sh_java(_tlc_cmd(module, cfg, 1, md), cwd=SPEC, env=env, timeout=timeout)
     except subprocess.TimeoutExpired:
         raise ToolError(f"TLC timed out validating {trace_path}")
     shutil.rmtree(md, ignore_errors=True)
@@ -148,7 +200,7 @@ def tlc_mc(module, cfg, workdir, workers=8, timeout=3600, xmx="8g", extra=(), co
         ex += ["-coverage", "1"]
     t0 = time.time()
     try:
-        rc, out = sh(_tlc_cmd(module, cfg, workers, md, ex), cwd=SPEC, env=env, timeout=timeout)
+        rc, out = sh_java(_tlc_cmd(module, cfg, workers, md, ex), cwd=SPEC, env=env, timeout=timeout)
     except subprocess.TimeoutExpired:
         raise ToolError(f"TLC timed out on {module} / {cfg}")
     shutil.rmtree(md, ignore_errors=True)
@@ -179,7 +231,7 @@ def tlc_print(module, cfg, workdir, tag, timeout=1800, workers=1, xmx="4g", extr
     md = os.path.join(workdir, "md_" + os.path.basename(cfg))
     env = {"JAVA_TOOL_OPTIONS": f"-Xss512m -Xmx{xmx}"}
     try:
-        rc, out = sh(_tlc_cmd(module, cfg, workers, md, extra), cwd=SPEC, env=env, timeout=timeout)
+        rc, out = sh_java(_tlc_cmd(module, cfg, workers, md, extra), cwd=SPEC, env=env, timeout=timeout)
     except subprocess.TimeoutExpired:
         raise ToolError(f"TLC timed out on generator {module}")
     shutil.rmtree(md, ignore_errors=True)
